@@ -317,3 +317,54 @@ Proof.
   intros y Hy. apply insert_new in Hy. destruct Hy as [Hy|[-> _]]; [left; exact Hy|]. right.
   cbn [canon_fact snd]. apply canon_canon. apply (proj1 HC1).
 Qed.
+
+(* next_id never decreases *)
+Lemma defs_fold_next_id_le P l : forall s, next_id s <= next_id (defs_fold P l s).
+Proof.
+  induction l as [|[f t] l IH]; intros s; cbn [defs_fold fold_left fst snd]; [lia|].
+  fold (defs_fold P l (fst (define P f t s))).
+  pose proof (define_next_id_le P f t s). pose proof (IH (fst (define P f t s))). lia.
+Qed.
+
+Lemma apply_defs_next_id_le P s : next_id s <= next_id (apply_defs P s).
+Proof. unfold apply_defs. apply (defs_fold_next_id_le P (pending s) (set_pending s [])). Qed.
+
+Lemma loop_next_id_le P cond fuel : forall s r b,
+  exec_loop fuel P cond s = Some (r, b) -> next_id s <= next_id r.
+Proof.
+  induction fuel as [|k IH]; intros s r b H; cbn [exec_loop] in H; [discriminate|].
+  pose proof (exec_iter_next_id P s) as E1. pose proof (apply_defs_next_id_le P (exec_iter P s)) as E2.
+  destruct (cond (exec_iter P s)).
+  - inversion H; subst. lia.
+  - destruct (is_dirty (exec_iter P s)); [specialize (IH _ _ _ H); lia|].
+    destruct (is_dirty (apply_defs P (exec_iter P s))); [specialize (IH _ _ _ H); lia|].
+    inversion H; subst. lia.
+Qed.
+
+Lemma close_until_next_id_le P cond fuel s r b :
+  exec_close_until fuel P cond s = Some (r, b) -> next_id s <= next_id r.
+Proof.
+  intros H. unfold exec_close_until in H. destruct (canonicalize_fields s) as [_ [_ [Fn _]]].
+  destruct (cond (canonicalize s)); [inversion H; subst; lia|].
+  apply loop_next_id_le in H. cbn [set_pending next_id] in H. lia.
+Qed.
+
+(* canonicity is kept through the sequence of define_ calls made by apply_func_defs *)
+Lemma Canon_defs_fold P l : forall s, WF s -> Canon s ->
+  (forall f t, In (f, t) l -> ids_lt (next_id s) t) -> Canon (defs_fold P l s).
+Proof.
+  induction l as [|[f t] l IH]; intros s HW HC Hl; cbn [defs_fold fold_left fst snd]; [exact HC|].
+  fold (defs_fold P l (fst (define P f t s))). apply IH.
+  - apply WF_define; [exact HW | apply (Hl f t); left; reflexivity].
+  - apply Canon_define; assumption.
+  - intros f' t' Hin. eapply ids_lt_mono; [apply define_next_id_le|]. apply (Hl f' t'). right. exact Hin.
+Qed.
+
+Lemma Canon_apply_defs P s : WF s -> Canon s -> Canon (apply_defs P s).
+Proof.
+  intros HW HC. unfold apply_defs. fold (defs_fold P (pending s) (set_pending s [])).
+  apply Canon_defs_fold.
+  - apply WF_set_pending; [exact HW|]. intros f t [].
+  - exact HC.
+  - cbn [set_pending next_id]. apply (ids_pend _ (wf_ids _ HW)).
+Qed.
